@@ -389,6 +389,29 @@ pub fn hostile_workload(ctx: &mut Ctx, tag: u64, quick_n: u64, thorough_n: u64, 
 }
 
 pub fn run(ctx: &mut Ctx) {
+    // many threads at once (two per core) inside the entry points, on strings that hold alone
+    if ctx.shard < 4 {
+        let mut rng = ctx.rng(0x7C0);
+        let mut cases: Vec<(Fmt, String)> = vec![];
+        for f in ALL_FMT {
+            let g = StrGen::new(f);
+            for i in 0..30usize {
+                let base = g.wellformed(&mut rng, 1 + i % 3);
+                cases.push((f, if i % 3 == 2 { g.mutate(&base, &mut rng) } else { base }));
+            }
+            cases.extend(["", "(", "{A,", "<A --> B>. %1;0.9%", "$0.5$ A. :|:"].iter().map(|s| (f, s.to_string())));
+        }
+        let rounds = if ctx.thorough { 60 } else { 6 };
+        concurrent_family(ctx, "C04", "all enum parser entry points", cases, rounds, |c| {
+            for entry in ENTRIES {
+                if let Err(p) = call_entry(c.0, entry, &c.1) {
+                    return Some(format!("{} on {:?} panicked: {}", entry, c.1, p));
+                }
+            }
+            call_multi(c.0, &[c.1.clone(), c.1.clone()]).err().map(|p| format!("parse_multi on {:?} twice panicked: {}", c.1, p))
+        });
+    }
+
     let mut recent: Vec<String> = vec![];
     let mut counter = 0u64;
     let mut sink = |ctx: &mut Ctx, f: Fmt, s: &str, family: &'static str| {
